@@ -105,7 +105,7 @@ func (x *explorer) instructions(w *world) []instr {
 }
 
 func (x *explorer) alts(w *world, count int) []alt {
-	parked, _ := w.parked()
+	parked, pcalls := w.parked()
 	var out []alt
 	instrCost := 0
 	if len(parked) == 0 {
@@ -120,7 +120,17 @@ func (x *explorer) alts(w *world, count int) []alt {
 			out = append(out, alt{Label: "A:" + l, Cost: c})
 		}
 		for _, l := range parked {
+			if pcalls[l].Effected {
+				continue // carried out: the answer is what it is
+			}
 			out = append(out, alt{Label: "F:" + l, Cost: 1}) // daemon failure
+		}
+		if x.cfg.LateAnswers {
+			for _, l := range parked {
+				if c := pcalls[l]; !c.Effected && (c.Kind == "pin" || c.Kind == "unpin") {
+					out = append(out, alt{Label: "E:" + l, Cost: 1}) // carried out now, answer later
+				}
+			}
 		}
 	}
 	if count < x.cfg.MaxInstr {
@@ -234,6 +244,8 @@ func (x *explorer) execute(t *testing.T, prefix []string, keys []string, avoid m
 				w.complete(a.Label[2:], clus.Apply)
 			case strings.HasPrefix(a.Label, "F:"):
 				w.complete(a.Label[2:], clus.Fail)
+			case strings.HasPrefix(a.Label, "E:"):
+				w.effect(a.Label[2:])
 			}
 		}
 	})
@@ -484,6 +496,8 @@ func replayPath(t *testing.T, cfg config, path []string) (fs []finding, ok bool)
 				w.complete(lab[2:], clus.Apply)
 			case strings.HasPrefix(lab, "F:"):
 				w.complete(lab[2:], clus.Fail)
+			case strings.HasPrefix(lab, "E:"):
+				w.effect(lab[2:])
 			}
 		}
 	})
